@@ -18,8 +18,7 @@ func structUnder(t types.Type) (*types.Struct, bool) {
 // stores the flag constant at index len-1; nothing else stores into a nonce.
 func checkNonceLayout(p *Program, r *Result) {
 	inc := r.anchor(pkgStream, "", "incNonce")
-	set := r.anchor(pkgStream, "", "setLastChunkFlag")
-	if inc == nil || set == nil {
+	if inc == nil {
 		return
 	}
 	// array length from the parameter type
@@ -200,56 +199,23 @@ func checkNonceLayout(p *Program, r *Result) {
 	}
 	r.Check(ok, inc.String(), "nonce:counter", pos, "big-endian counter over bytes len-2..0 with carry and abort on wrap", detail)
 
-	// --- setLastChunkFlag
-	var fstores []*ssa.Store
-	for _, b := range set.Blocks {
-		for _, in := range b.Instrs {
-			if s, isS := in.(*ssa.Store); isS {
-				fstores = append(fstores, s)
-			}
-		}
-	}
-	okf := len(fstores) == 1
-	if okf {
-		ia, isIA := fstores[0].Addr.(*ssa.IndexAddr)
-		idx := int64(-1)
-		if isIA {
-			idx, _ = constInt(ia.Index)
-		}
-		val, _ := constInt(fstores[0].Val)
-		flag, _ := p.ConstValue(pkgStream, "lastChunkFlag")
-		okf = isIA && ia.X == set.Params[0] && idx == arrLen(set)-1 && val == 1 && flag == "1"
-	}
+	// --- the final-chunk flag: wherever it is written (setLastChunkFlag is spliced into its
+	// callers by the normal form), every store of a constant into a nonce array outside the
+	// counter function stores lastChunkFlag (1) at the last byte; there is no other writer
+	flagSets, others := p.nonceStores(inc)
 	fpos := ""
-	if len(fstores) > 0 {
-		fpos = r.pos(fstores[0])
+	if len(flagSets) > 0 {
+		fpos = r.pos(flagSets[0])
 	}
-	r.Check(okf, set.String(), "nonce:flag", fpos, "flag constant 1 stored at the last nonce byte", "setLastChunkFlag does not store the constant 1 at index len-1")
+	r.Check(len(flagSets) >= 2, pkgStream, "nonce:flag", fpos, "flag constant 1 stored at the last nonce byte ("+itoa(len(flagSets))+" sites)", "the final-chunk flag (constant 1 at index len-1 of the nonce) is not set on both the reading and the writing side")
 
-	// --- nobody else writes a nonce array
 	other := ""
+	if len(others) > 0 {
+		other = others[0].Parent().String() + " at " + r.pos(others[0])
+	}
 	for _, f := range p.Funcs {
-		if f == inc || f == set || !inPkg(f, pkgStream) {
+		if f == inc || !inPkg(f, pkgStream) {
 			continue
-		}
-		for _, b := range f.Blocks {
-			for _, in := range b.Instrs {
-				s, isS := in.(*ssa.Store)
-				if !isS {
-					continue
-				}
-				a := s.Addr
-				for {
-					if ia, isIA := a.(*ssa.IndexAddr); isIA {
-						a = ia.X
-						continue
-					}
-					break
-				}
-				if fa, isFA := a.(*ssa.FieldAddr); isFA && fieldName(fa.X.Type(), fa.Field) == "nonce" {
-					other = f.String() + " at " + r.pos(s)
-				}
-			}
 		}
 		for _, c := range callsIn(f) {
 			if isBuiltin(c.Common(), "copy") {
@@ -259,7 +225,7 @@ func checkNonceLayout(p *Program, r *Result) {
 			}
 		}
 	}
-	r.Check(other == "", pkgStream, "nonce:writers", "", "the nonce fields are written only by incNonce and setLastChunkFlag", "nonce written outside incNonce/setLastChunkFlag: "+other)
+	r.Check(other == "", pkgStream, "nonce:writers", "", "the nonce fields are written only by incNonce and the final-chunk flag stores", "nonce written outside incNonce and the final-chunk flag store: "+other)
 }
 
 func stripSliceToField(v ssa.Value) (*ssa.FieldAddr, bool) {
